@@ -257,6 +257,10 @@ func RunCmd(dir string, name string, args ...string) (string, string, int) {
 // Scope prefixes the names of the fault flags created by stubs from now on.
 func Scope(name string) {}
 
+// GlobalResets lists atomic stores / compare-and-swaps on package-level state recorded so far
+// (race-free, yet visible to every other call in flight).
+func GlobalResets() []string { return nil }
+
 // WriteLog lists the recorded stores to package-level state.
 func WriteLog() []string { return nil }
 
@@ -271,6 +275,9 @@ func PanicSite() string {
 		if !strings.HasPrefix(l, "panic(") {
 			continue
 		}
+		// the innermost frame of the repository's own code (a panic raised inside a dependency is
+		// attributed to the repository function that called into it, as the symbolic executor does)
+		first := ""
 		for j := i + 2; j < len(lines); j += 2 {
 			fn := strings.TrimSpace(lines[j])
 			if k := strings.LastIndex(fn, "("); k > 0 {
@@ -279,7 +286,15 @@ func PanicSite() string {
 			if strings.HasPrefix(fn, "runtime.") || strings.HasPrefix(fn, "panic") {
 				continue
 			}
-			return normSite(fn)
+			if first == "" {
+				first = fn
+			}
+			if strings.Contains(fn, "amf-custom-validator/") && !strings.Contains(fn, "/zzverif.") {
+				return normSite(fn)
+			}
+		}
+		if first != "" {
+			return normSite(first)
 		}
 	}
 	return "unknown"
